@@ -909,6 +909,14 @@ pub fn gen_plan(id: &str, rng: &mut Rng) -> Result<(gen::GenModule, Vec<Inj>, bo
                 }
                 plan.push(Inj { func: nimp + f as u32, at, mode, path, uid, n_ops: 1, leading_drop: false, probe: Probe::Marker });
                 uid += 1;
+                // semantic-after on an `if` that has an else: 1 in 2 the SAME probe body is also attached to the else (two copies must be emitted)
+                if mode == Mode::SemAfter && func.ops[at].name == "If" {
+                    if let Some(e) = st.else_of.get(&at) {
+                        if rng.bool() {
+                            plan.push(Inj { func: nimp + f as u32, at: *e, mode: Mode::SemAfter, path, uid: uid - 1, n_ops: 1, leading_drop: false, probe: Probe::Marker });
+                        }
+                    }
+                }
                 // 1 in 4: a function-level probe on the same function as well (entry / exit code must survive whatever the other injection does)
                 // (not next to an empty block-alt, whose reflection is judged by comparing the whole body with the removal spec)
                 if rng.chance(1, 4) && !matches!(mode, Mode::FuncEntry | Mode::FuncExit | Mode::EmptyBlockAlt) {
@@ -1246,7 +1254,7 @@ impl Lower {
                         } else {
                             out.ob("reflected");
                         }
-                    } else if marker_present(got, i.uid) == 0 {
+                    } else if marker_present(got, i.uid) < accepted.iter().filter(|j| j.uid == i.uid && j.func == i.func).count() {
                         let tclass = if site_op == "branch-op" { branch_target_class(&raw_in.funcs[f].ops, i.at) } else { "" };
                         let sig = if tclass == "func-label" {
                             // path-independent: the body planned after the function's final end is dropped
